@@ -450,6 +450,54 @@ Definition wsc_step (st : wscales) (op : wop) : wscales * list (list (option (li
 Fixpoint wsc_run (st : wscales) (ops : list wop) : list (list (option (list Z)) * option (list Z)) :=
   match ops with [] => [] | op :: r => let (st', out) := wsc_step st op in out ++ wsc_run st' r end.
 
+(** The same bookkeeping for the other settings of the writer (Ref.luf[...] for the label/unit/format records,
+    Ref.maxmin for the range): one slot = the value in effect, the ref state (-1 none, 0 modified, r > 0 written) and
+    the content of the record the ref names.  [present] says whether a modified value produces a record at all
+    (the string records are always written once modified; a range is present when set), [oneshot] whether the setting
+    applies to one dataset only (DFSDIputndg resets Ref.maxmin after writing). *)
+Record slot (A : Type) := mkSlot { sl_val : A; sl_ref : Z; sl_written : A }.
+Arguments mkSlot {A}. Arguments sl_val {A}. Arguments sl_ref {A}. Arguments sl_written {A}.
+
+Definition sl_set {A} (marks : bool) (st : slot A) (v : A) : slot A :=
+  mkSlot v (if marks then 0 else sl_ref st) (sl_written st).
+Definition sl_forget {A} (forgets : bool) (dflt : A) (st : slot A) : slot A :=
+  mkSlot dflt (if forgets then -1 else sl_ref st) (sl_written st).
+Definition sl_put {A} (present : A -> bool) (oneshot : bool) (dflt : A) (st : slot A) (r : Z) : slot A * option A :=
+  let res :=
+    if sl_ref st =? 0 then
+      if present (sl_val st) then (mkSlot (sl_val st) r (sl_val st), Some (sl_val st))
+      else (mkSlot (sl_val st) (-1) (sl_written st), None)
+    else if 0 <? sl_ref st then (st, Some (sl_written st)) else (st, None) in
+  (if oneshot then mkSlot dflt (-1) (sl_written (fst res)) else fst res, snd res).
+
+Inductive slot_op (A : Type) := SlSet (v : A) | SlForget | SlPut (r : Z).
+Arguments SlSet {A}. Arguments SlForget {A}. Arguments SlPut {A}.
+Definition sl_step {A} (marks forgets oneshot : bool) (present : A -> bool) (dflt : A) (st : slot A) (op : slot_op A)
+  : slot A * list (A * option A) :=
+  match op with
+  | SlSet v => (sl_set marks st v, [])
+  | SlForget => (sl_forget forgets dflt st, [])
+  | SlPut r => let (st', out) := sl_put present oneshot dflt st r in (st', [(sl_val st, out)])
+  end.
+Fixpoint sl_run {A} (marks forgets oneshot : bool) (present : A -> bool) (dflt : A) (st : slot A) (ops : list (slot_op A))
+  : list (A * option A) :=
+  match ops with
+  | [] => []
+  | op :: r => let (st', out) := sl_step marks forgets oneshot present dflt st op in
+               out ++ sl_run marks forgets oneshot present dflt st' r
+  end.
+
+(** the strings slot: data strings and the strings of every dimension (one record per kind, always written once
+    modified); the range slot: maximum and minimum, for the next dataset only *)
+Definition luf_value := (option (list Z * list Z * list Z) * list (option (list Z * list Z * list Z)))%type.
+Definition luf_run := @sl_run luf_value (DFSDIsetdatastrs_marks_modified && DFSDIsetdimstrs_marks_modified)
+                              DFSDIclear_forgets_scales_record false
+                              (fun _ => DFSDIputndg_luf_always_written) (None, []).
+Definition range_value := option (list Z * list Z).
+Definition range_run := @sl_run range_value DFSDsetrange_marks_modified (DFSDIclear_forgets_range && DFSDIclearNT_forgets_range)
+                                DFSDIputndg_range_applies_once
+                                (fun v => match v with Some _ => true | None => false end) None.
+
 (* ------------------------------------------------ the coordinate variable of a dimension (mfsd.c SDgetdimstrs) *)
 (** strncmp(a, b, strlen(a)) == 0 for names without embedded NUL *)
 Fixpoint prefix_eqb (a b : list Z) : bool :=
@@ -488,6 +536,58 @@ Fixpoint collapse (fuel : nat) (l : list gdim) : list gdim :=
       | _ => l
       end
   end.
+
+(** where the elements of the window land: (position in the caller's array, position in the file's array), both in
+    elements and row-major, listed in row-major order of the window.  Dimensions least significant first. *)
+Definition zrange (n : Z) : list Z := map Z.of_nat (seq 0 (Z.to_nat n)).
+Fixpoint cells (l : list gdim) : list (Z * Z) :=
+  match l with
+  | [] => [(0, 0)]
+  | (a, w, s, f) :: rest =>
+      flat_map (fun p => map (fun i => (i + a * fst p, (s + i) + f * snd p)) (zrange w)) (cells rest)
+  end.
+
+(* ------------------------------------------------------------------- values: the data element and its conversion *)
+(** DFKconvert between the caller's memory (little-endian host) and the file: the bytes of every element are reversed
+    unless the type's flavour says the file holds the host's order (C06 proves the conversion kernel; here it is the
+    composition of writer and reader that matters).  The same function serves both directions. *)
+Fixpoint chunk (fuel w : nat) (l : list Z) : list (list Z) :=
+  match fuel with
+  | O => []
+  | S k => match l with [] => [] | _ => firstn w l :: chunk k w (skipn w l) end
+  end.
+Definition swap_needed (nt : Z) : bool := negb (Z.testbit nt 14 || Z.testbit nt 12).
+Definition conv_elems (nt : Z) (els : list (list Z)) : list (list Z) := if swap_needed nt then map (@rev Z) els else els.
+Definition convert (nt : Z) (data : list Z) : list Z :=
+  concat (conv_elems nt (chunk (length data) (Z.to_nat (ntsize nt)) data)).
+
+(** what a reader hands to its caller: the description it reconstructs and the data element converted to memory order
+    according to the type it decoded (SDreaddata / DFSDgetdata of the whole dataset) *)
+Definition read_values (viewf : store -> list (Z * Z) -> option view) (st : store) (members : list (Z * Z))
+  : option (view * list Z) :=
+  match viewf st members with
+  | Some (rank, dims, ty, dref) =>
+      match get st DFTAG_SD dref with
+      | Some b => Some ((rank, dims, ty, dref), convert ty b)
+      | None => None
+      end
+  | None => None
+  end.
+Definition read_values_vg (st : store) (g : vgdesc) : option (view * list Z) :=
+  match vg_view st g with
+  | Some (rank, dims, ty, dref) =>
+      match get st DFTAG_SD dref with
+      | Some b => Some ((rank, dims, ty, dref), convert ty b)
+      | None => None
+      end
+  | None => None
+  end.
+
+(** the writers with the data element: SDwritedata / DFSDadddata store the converted values under DFTAG_SD *)
+Definition sd_write_full (v : svar) (data : list Z) (st' : store) : store :=
+  sd_write_var v ++ (DFTAG_SD, v_data_ref v, convert (v_nt v) data) :: st'.
+Definition dfsd_put_full (v : svar) (data : list Z) (st' : store) : store :=
+  dfsd_put v ++ (DFTAG_SD, v_data_ref v, convert (v_nt v) data) :: st'.
 
 (** how every view names a type written with flavour bits (native is recorded as the host's class) *)
 Definition shown_nt (nt : Z) : Z :=
@@ -583,6 +683,21 @@ Definition dfgr_view (st : store) (members : list (Z * Z)) : option rview := rig
 
 Definition rview_of (m : rimage) (il : Z) : rview :=
   mkRv (ri_x m) (ri_y m) (ri_ncomp m) il (ri_ctag m) (ri_img_tag m) (ri_img_ref m) (ri_lut_ref m).
+
+(** the pixels with the description: the older readers hand over the image element as it is when the description
+    names no old-style compression (8-bit images have a single component, so no interlace is involved) *)
+Definition rig_read_pixels (viewf : store -> list (Z * Z) -> option rview) (st : store) (members : list (Z * Z))
+  : option (rview * list Z) :=
+  match viewf st members with
+  | Some v => if rv_ctag v =? 0 then
+                match get st (rv_img_tag v) (rv_img_ref v) with Some b => Some (v, b) | None => None end
+              else None
+  | None => None
+  end.
+Definition gr_put_full (m : rimage) (pixels : list Z) (st' : store) : store :=
+  gr_put m ++ (ri_img_tag m, ri_img_ref m, pixels) :: st'.
+Definition dfr8_put_full (m : rimage) (pixels : list Z) (st' : store) : store :=
+  dfr8_put m ++ (ri_img_tag m, ri_img_ref m, pixels) :: st'.
 
 (* ------------------------------------------------------------------------------ maps between the views *)
 (** interlace codes of the single-file calls (DFIL_PIXEL ..) and of GR (MFGR_INTERLACE_PIXEL ..) *)
